@@ -3,6 +3,12 @@
 open Model
 open Util
 
+(* the 256 byte values as Coq numerals, built once *)
+let btab = Array.init 256 n_of_int
+let hexv c = match c with '0'..'9' -> Char.code c - 48 | 'a'..'f' -> Char.code c - 87 | 'A'..'F' -> Char.code c - 55 | _ -> failwith "bad hex"
+let bytes_of_hex (s : string) : n list =
+  if s = "-" then [] else List.init (String.length s / 2) (fun i -> btab.(16 * hexv s.[2 * i] + hexv s.[2 * i + 1]))
+
 let max_off_of = function
   | "ext4" -> n_of_hex "ffffffff000"        (* 2^44 - 4096: ext4, 4 KiB blocks, extent mapped *)
   | "shm" -> n_of_hex "7fffffffffffffff"    (* tmpfs: MAX_LFS_FILESIZE *)
